@@ -421,7 +421,7 @@ def oracle(case, obs):
                 changed = [k for k in st if k != 'values_rows_ok' and st[k] != prev.get(k)]
                 bad('hook|state-changed', 'op %d: %s changed the object (%s)' % (i, op[1], changed))
             ret = stp.get('ret')
-            if op[1] == 'completions' and ret != {'names': list(prev['index'])}:
+            if op[1] == 'completions' and not (isinstance(ret, dict) and sorted(ret.get('names', [])) == sorted(prev['index'])):
                 bad('hook|completions', 'op %d: _ipython_key_completions_() gave %s, the variables are %s' % (i, ret, prev['index']))
             if op[1] == 'nbytes' and isinstance(prev['nbytes'], int) and ret != {'nat': prev['nbytes'] + 0}:
                 bad('hook|nbytes', 'op %d: nbytes gave %s, the series occupy %s bytes' % (i, ret, prev['nbytes']))
